@@ -2,5 +2,11 @@ package main
 
 import "github.com/github/go-spdx/v2/spdxexp"
 
-func satisfiesDirect(e string, allowed []string) (bool, error) { return spdxexp.Satisfies(e, allowed) }
-func validateDirect(l []string) (bool, []string)               { return spdxexp.ValidateLicenses(l) }
+func satisfiesDirect(e string, allowed []string) (bool, error) {
+	defer journal("Satisfies", e, allowed)()
+	return spdxexp.Satisfies(e, allowed)
+}
+func validateDirect(l []string) (bool, []string) {
+	defer journal("ValidateLicenses", "", l)()
+	return spdxexp.ValidateLicenses(l)
+}
